@@ -1,6 +1,7 @@
 package node
 
 import (
+	"fmt"
 	"reflect"
 
 	"github.com/paulsonkoly/calc/types/bytecode"
@@ -30,6 +31,31 @@ func ByteCode(bc ByteCoder, cr compResult) {
 		instr |= bytecode.New(bytecode.PUSH)
 		*cr.CS = append(*cr.CS, instr)
 	}
+}
+
+// Compile compiles bc and appends the results in cr like ByteCode (or
+// ByteCodeNoStck if discard is set), but a program that is too large for the
+// instruction encoding is refused with an error and leaves cr as it was.
+func Compile(bc ByteCoder, cr compResult, discard bool) (err error) {
+	csLen, dsLen := len(*cr.CS), len(*cr.DS)
+
+	defer func() {
+		if r := recover(); r != nil {
+			if r != bytecode.ErrAddrRange {
+				panic(r)
+			}
+			*cr.CS, *cr.DS = (*cr.CS)[:csLen], (*cr.DS)[:dsLen]
+			err = fmt.Errorf("COMPILE ERROR : program too large: %w", bytecode.ErrAddrRange)
+		}
+	}()
+
+	if discard {
+		ByteCodeNoStck(bc, cr)
+	} else {
+		ByteCode(bc, cr)
+	}
+
+	return nil
 }
 
 // ByteCodeNoStck compiles bc and appends the results in cr.
